@@ -285,6 +285,21 @@ def r04_1(q, R, spec):
 
 
 # ------------------------------------------------------------------------------------ R04.2
+def _no_early_success(R, rid, who, pe, fn):
+    """Every *successful* return of a change_name is dominated by the old-value check: an early `return Ok(..)` / conditional success branch
+    that leaves (or forks) before the comparison `self[namespace] == from` accepts a diff whose stated old value does not fit (seed C04-4)."""
+    early = []
+    for e in pe.trace:
+        if e["kind"] == "guard" and e["cond"] == 0 and e["canon"] == ("eq", "$from", "$self[$ns]"):
+            break
+        if e["kind"] in ("skip", "opaque"):
+            early.append(e)
+    R.inst(rid, "%s:no-success-exit-before-old-value-check" % who, not early, sp=(early[0]["node"].get("sp") if early else fn["sp"]),
+           expect="no branch returns successfully before `self[namespace] == from` has been checked",
+           got=[H.render(e["node"])[:160] for e in early],
+           detail="a diff states the old value; a path that answers Ok without comparing it applies the diff to a target it does not fit")
+
+
 def r04_2(q, R, spec):
     rid = "R04.2"
     R.rule(rid, "old-value checks dominate every mutation: Names::change_name replaces the slot of `namespace` by `to` only after "
@@ -313,6 +328,7 @@ def r04_2(q, R, spec):
                    detail="a stated old value that does not match the target must refuse the application")
         mut_other = [e for e in pe.trace if e["kind"] in ("assign", "assignop")]
         R.inst(rid, "Names::change_name:no-other-mutation", not mut_other, sp=fn["sp"], got=[H.render(e["node"]) for e in mut_other])
+        _no_early_success(R, rid, "Names::change_name", pe, fn)
     # -- Namespaces::change_name
     fn = fn_in(q, "change_name", impl_ty="names::Namespaces<")
     if R.anchor(rid, "fn Namespaces::change_name", fn):
@@ -327,6 +343,7 @@ def r04_2(q, R, spec):
             R.inst(rid, "Namespaces::change_name:slot", T.show(a[0]) == "$self[$ns]" and T.show(a[1]) == "$to", sp=fn["sp"], got=[T.show(x) for x in a])
             R.inst(rid, "Namespaces::change_name:guard-old-value", ("eq", "$from", "$self[$ns]") in g, sp=fn["sp"], got=g,
                    expect="self[namespace] == from before the replace")
+        _no_early_success(R, rid, "Namespaces::change_name", pe, fn)
     # -- apply_diff_option
     fn = fn_in(q, "apply_diff_option", within="apply_diff::")
     if R.anchor(rid, "fn apply_diff::apply_diff_option", fn):
